@@ -628,3 +628,7 @@ def algorithm_ctor(u: Unit):
                 sv = p.st.cell(p.ex.self_ref).fields.get("_stopval")
                 u.oblige(p, "ctor.Algorithm.absent_stopval_is_minus_infinity", bool(isinstance(sv, VFloat) and is_conc(sv.v) and sv.v == float("-inf")), {"stored": repr(sv)}, ALGO_REPLAY)
         u.cover(f"ctor.Algorithm.cover[{stop}]", ps, lambda p: p.kind == "return")
+
+
+from . import calibreport as _CR12  # noqa: E402
+unit("C12", "ctor[running modes]")(_CR12.mode_ctor_unit)   # Exposure / Observation return the settings they were built with
